@@ -99,6 +99,8 @@ func init() {
 		ID: "C23",
 		Rule: "a case is a batch of histories; a history = initialize (one workspace folder), initialized, then random didOpen/didChange (full text; rarely several or zero contentChanges entries)/didClose/definition over 1-4 documents, " +
 			"unknown methods, $/cancelRequest (numeric and string ids), requests on closed and never-opened documents, hostile positions (beyond line/document end, inside a surrogate pair, 2^32-1), optional shutdown/exit; " +
+			"version numbers are the client's (1 at didOpen, +1 per change, sometimes continued, repeated or skipped), so (uri, version) pairs recur after a reopen; " +
+			"the first pipelined histories of a case contain documents of 64-128 KiB (also exactly 65535/65536/65537 bytes) immediately followed by a tiny change; " +
 			"delivery lock-step / pipelined (120-320 messages written without waiting) / pipelined with VERIF_LS_DELAYS; document versions are synthetic grammars or repository grammars (parsers/*/*.tm, compiler/testdata/*) with " +
 			"identifiers renamed name_v<version>, stamp-dependent layout, injected compile and syntax errors, CRLF, and (unless the history is ASCII-only) BMP and astral text in comments/strings/quoted terminals before identifiers and error sites. " +
 			"Run on the -race build of the real server. Non-trivial distinct observation = a (content, identifier) pair whose definition reply was verified, or a content whose diagnostics were verified",
@@ -129,6 +131,7 @@ func init() {
 			"diag_verdict_ok", "definition_ok", "definition_on_closed_rejected", "definition_invalid_position_rejected",
 			"error_replies_unknown_method", "register_histories_linearizable", "register_reads_identified",
 			"diagnostics_multiline_range", "sent_close", "sent_cancel", "race_detector_runs", "corpus_documents", "synthetic_documents",
+			"publications_for_documents_64k_and_more", "version_numbers_reused", "definition_after_version_reuse",
 		},
 	})
 }
@@ -148,6 +151,7 @@ func c23Run(c *fw.Ctx) {
 		}
 	}
 	reported := map[string]int{}
+	bigDone := map[int]bool{}
 	n := c23HistoriesPerCase(c.Tier)
 	for j := 0; j < n; j++ {
 		r := c.SubRand(j)
@@ -165,12 +169,18 @@ func c23Run(c *fw.Ctx) {
 		case 10:
 			o.KillNonFileURI = true
 		}
+		// large documents followed by a tiny change: in the first pipelined and the
+		// first pipelined+delays history of every case
+		if o.Mode != lspc.LockStep && !bigDone[o.Mode] {
+			bigDone[o.Mode] = true
+			o.BigPairs = 3 - o.Mode
+		}
 		h := lspc.Generate(r, o)
 		for _, m := range h.Msgs {
 			for _, d := range m.Docs {
 				if strings.HasPrefix(d.Kind, "corpus:") {
 					c.Count("corpus_documents", 1)
-				} else if d.Kind == "synth" {
+				} else if d.Kind == "synth" || d.Kind == "big" {
 					c.Count("synthetic_documents", 1)
 				} else {
 					c.Count("raw_documents", 1)
